@@ -11,11 +11,14 @@ import re
 
 from lib import common, calcorr, periodcorr, zhcorr
 from lib.calcorr import fmt_dt, ref_fields, guarded, at
+from lib import cultureconfigcorr
 
 PROP = 'C08'
 LEVEL = 'proof'
 PROPS_MODULES = ['RTV.Props.C08', 'RTV.Props.C08Zh']
+PROPS_MODULES += ['RTV.Props.C08Config', 'RTV.Props.C08ConfigWords', 'RTV.Props.C08ConfigLast']   # culture configurations, regenerated
 GEN = []
+GEN += ['cultureconfig']
 REQUIRED_THEOREMS = ['this_in_iso_week', 'next_is_following_week', 'last_is_preceding_week', 'today_is_reference_date',
                      'tomorrow_is_next_day', 'yesterday_is_previous_day', 'n_days_ago', 'in_n_days', 'n_weeks_is_7n_days',
                      'this_week_is_monday_to_monday', 'week_timex_matches_isocalendar', 'year_period',
@@ -29,6 +32,11 @@ REQUIRED_THEOREMS = ['this_in_iso_week', 'next_is_following_week', 'last_is_prec
                      'zh_n_years_later', 'zh_months_years_prefix_regression', 'zh_simple_cases_definite_ok',
                      'zh_simple_cases_relative_month_fixed', 'zh_simple_cases_prefix_regression', 'zh_quarter_ok',
                      'zh_quarter4_prefix_regression', 'zh_past_n_days_weeks_ok', 'zh_next_n_days_weeks_ok']
+REQUIRED_THEOREMS += ['swift_values_all_texts', 'get_hour_stays_in_day', 'special_day_words', 'english_swift_day_table',
+                      'next_words_swift_plus_one', 'next_words_year_plus_one', 'spanish_next_year_partial',
+                      'last_words_swift_minus_one', 'this_words_swift_zero', 'next_last_disjoint',
+                      'extractor_last_words_swift_minus_one_partial', 'german_last_words_not_previous',
+                      'italian_last_words_partial', 'is_future_english', 'is_last_cardinal_english']
 RULE = ('unit: every ordinal of 1950..2090 + stride 97 over 0001..9999 (thorough: every ordinal) for ord2ymd/weekday/'
         'isocalendar; datedelta shim x 22 deltas on boundary days + all days of 2019-2021; this/next/last on every day of '
         '1950..2090 x dow 0..7; get_date_result D/W/MON/Y x N x both directions; parse_implicit_date and '
@@ -551,4 +559,9 @@ def correspond(ctx):
     unit_parsers(ctx, bdays + dense + (calcorr.all_days() if ctx.thorough else calcorr.seeded_days(r, 1500)))
     zhcorr.run(ctx)               # the Chinese parsers (RTV.Model.ZhDateTime; theorems in Props/C08Zh): unit + zh-cn pipeline
     periodcorr.unit(ctx)          # the other computations of BaseDatePeriodParser (RTV.Model.Periods; theorems in Props/C10Periods)
+    cultureconfigcorr.run(ctx)    # culture configuration methods: translated definitions vs the real methods; the cultures' own next/last/this words through the pipeline
     pipeline(ctx)
+
+
+def search(ctx, proof_problems):
+    cultureconfigcorr.search(ctx, proof_problems)
